@@ -145,7 +145,9 @@ def h_ops(ctx: Any, n: int, prof: str, history: bool = False, twin: bool = False
     if history:
         # the answers must not depend on what was asked before: the whole battery runs first on the siblings of p
         # (other constructors / rotated notation keys) with the same variable and a sibling plug
-        for sib in (gens.kind_swap(p), gens.key_swap(p)):
+        sibs = [gens.kind_swap(p), gens.key_swap(p), gens.arg_flip(p)]
+        r = ctx.choose(len(sibs), 'first earlier call')
+        for sib in sibs[r:] + sibs[:r]:
             _battery(sib, x, P.SVar(x))
     ctx.count('reached')
     ctx.sample({'p': repr(p), 'x': repr(x)})
@@ -187,6 +189,11 @@ def h_ops(ctx: Any, n: int, prof: str, history: bool = False, twin: bool = False
     m1, m2 = P.match_single(schem, p), P.match_single(schem, pe)
     ok = (m1 is None) == (m2 is None) and (m1 is None or all(O.eq(O.expand(m1[k]), O.expand(m2[k])) for k in m1))
     ctx.check(ok, f'C12.match_single-instance[{top}]', lambda: f'{p!r}: {m1!r} vs {m2!r}')
+    # a repeated metavariable whose occurrences are spelled differently (notation / expansion) and mean the same
+    nl = P.Implies(P.MetaVar(0), P.MetaVar(0))
+    for a, b in ((p, pe), (pe, p)):
+        mn = P.match_single(nl, P.Implies(a, b))
+        ctx.check(mn is not None and 0 in mn and O.eq(O.expand(mn[0]), te), f'C12.match_single-nonlinear[{top}]', lambda: f'phi0 -> phi0 against {a!r} -> {b!r}: {mn!r}')
     inst = gens.from_term(O.inst(te, {0: ('ev', 7)}))
     m1, m2 = P.match_single(p, inst), P.match_single(pe, inst)
     ok = (m1 is None) == (m2 is None) and (m1 is None or (set(m1) == set(m2) and all(O.eq(O.expand(m1[k]), O.expand(m2[k])) for k in m1)))
